@@ -905,7 +905,7 @@ def run(ctx: Ctx):
     check_inverse_contract(ctx, 12)
     run_anchor_sweep(ctx)
     run_algebra_sweep(ctx)
-    run_cases(ctx, ctx.pick(800, 9000), ctx.pick(560, 6000))
+    run_cases(ctx, ctx.pick(550, 9000), ctx.pick(380, 6000))
     order_probe_finish(ctx, spec, proc)
     if DIAG:
         for k in sorted(_diag):
